@@ -146,6 +146,8 @@ def generate(rng, tier: str, index: int) -> dict:
         'pipe': rng.choice([None, None, {'capacity': rng.choice([1, 5, 30, 200]), 'refill_every': rng.choice([0.01, 0.2, 1.0]), 'eagain': rng.randint(0, 5)}]),
         'sync_loss': rng.chance(0.12),
     }  # fmt: skip
+    # the helper dies with an unterminated line (and possibly an open group) behind it and is respawned under the same name
+    plan['crash'] = None if plan['sync_loss'] or not rng.chance(0.15) else {'group': rng.chance(0.4), 'cut': rng.randint(1, 50), 'exit_after': rng.choice([0.0, 0.05, 0.5])}
     if plan['pipe'] and any(c['k'] == 'long' for c in cmds):
         # a very long line is echoed in the error reply (about 70 kB): the slow pipe must be able to drain it within the run
         plan['pipe']['capacity'] = max(plan['pipe']['capacity'], 200)
@@ -311,6 +313,55 @@ def execute(plan: dict) -> dict:
 
         st_sync = {'at': None}
 
+    CRASH_TAIL = ['session ack enable', 'peer * announce route 10.80.0.0/24 next-hop 10.0.0.9 med 100', 'system version']
+
+    def crash_part() -> None:
+        cr = plan['crash']
+        faults['helper_crash'] = faults.get('helper_crash', 0) + 1
+        state['gen_before'] = h.generation
+        state['crash_at'] = w.loop.mono
+        pre = b'session ack enable\n'
+        if cr['group']:
+            pre += b'group start\nannounce route 10.79.1.0/24 next-hop 10.0.0.9 med 100\n'
+        partial = b'peer * announce route 10.79.0.0/24 next-hop 10.0.0.9 med 100 community [ 65000:1 65000:2 ]'[: 20 + cr['cut']]
+        h.emit(pre + partial)
+        w.after(0.3 + cr['exit_after'], lambda: h.exit(1))
+
+        def second_life() -> None:
+            if h.generation == state['gen_before']:
+                if w.loop.mono < state['crash_at'] + 20.0:
+                    w.after(0.5, second_life)
+                return
+            probes['respawned'] = probes.get('respawned', 0) + 1
+            state['respawn_lines'] = len(h.lines)
+            state['respawn_api'] = len(w.api_log)
+            h.emit(('\n'.join(CRASH_TAIL) + '\n').encode())
+
+        w.after(1.5 + cr['exit_after'], second_life)
+
+    def check_crash() -> None:
+        if 'respawn_lines' not in state:
+            probes['not_respawned'] = 1
+            return
+        lines2 = [ln for _, ln in h.lines[state['respawn_lines'] :]]
+        terms = [ln for ln in lines2 if ln in ('done', 'error')]
+        executed = [_norm(c) for _, _, svc, c in w.api_log[state['respawn_api'] :] if svc == 'h1']
+        if executed != [_norm(c) for c in CRASH_TAIL]:
+            violations.append(viol('C14/executed-differs-from-written', f'after the helper was respawned it wrote {CRASH_TAIL} but exabgp executed {[c for _, _, svc, c in w.api_log[state["respawn_api"] :]][:4]} (the dead instance left an unterminated line behind)', index=0, written=len(CRASH_TAIL), executed=len(executed)))
+            return
+        if terms != ['done', 'done', 'done']:
+            violations.append(viol('C14/wrong-reply', f'after the respawn: 3 valid commands, terminal replies {terms}', kind='respawn', expected='done', got=str(terms)))
+            return
+        for nb in nbrs:
+            peer = w.peer_for(nb['peer_ip'])
+            if peer is None:
+                continue
+            rep = RW.reported_table(peer.neighbor, False)
+            stale = [RW.fmt_key(k) for k in rep if k[3].startswith('10.79.')]
+            if stale or RW.key_of('10.80.0.0/24', None, False) not in rep:
+                violations.append(viol('C14/rib-side-effect', f'neighbor {nb["peer_ip"]} after the respawn: commands of the dead instance applied {stale}, 10.80.0.0/24 present: {RW.key_of("10.80.0.0/24", None, False) in rep}', neighbor=nb['idx']))
+                return
+
     state = {'stream_done_at': None, 'sync_started': False, 'final_at': None}
     violations: list[dict] = []
 
@@ -326,13 +377,22 @@ def execute(plan: dict) -> dict:
                 snapshot_main()
                 sync_part()
                 state['final_at'] = now + 75.0
+        elif plan.get('crash') and not state.get('crash_started'):
+            if now > state['stream_done_at'] + 2.0:
+                state['crash_started'] = True
+                snapshot_main()
+                crash_part()
+                state['final_at'] = now + 12.0
         elif state['final_at'] is None:
             if now > state['stream_done_at'] + 2.0:
                 snapshot_main()
                 w.signal('SHUTDOWN')
                 return
         elif now >= state['final_at']:
-            check_sync()
+            if plan.get('crash'):
+                check_crash()
+            else:
+                check_sync()
             w.signal('SHUTDOWN')
             return
         if now > 600.0:
@@ -442,7 +502,7 @@ def shrink_candidates(plan: dict):
     from exasim.runner import generic_candidates
 
     yield from generic_candidates(plan, ['cmds'])
-    for key, val in (('chunks', []), ('emit', [100000]), ('pipe', None), ('sync_loss', False), ('emit_gap', 0.0)):
+    for key, val in (('chunks', []), ('emit', [100000]), ('pipe', None), ('sync_loss', False), ('emit_gap', 0.0), ('crash', None)):
         if plan.get(key) != val:
             p = jclone(plan)
             p[key] = val
